@@ -156,7 +156,34 @@ func genC06(t *rapid.T) AxisCase {
 	for i, r := range raws {
 		steps[i] = Step{T: "abs", Sub: "", Code: a.Code, Val: r}
 	}
+	// a second sub-handler of the device may expose the same axis code as an independent controller
+	if rapid.IntRange(0, 9).Draw(t, "secondSub") < 3 {
+		b := AxisDef{Sub: "Touchpad", Code: a.Code, Type: "cc", CC: intp((derefOr(a.CC, 50) + 40) % 120), Min: a.Min, Max: a.Max}
+		if a.CCNeg != nil && *a.CCNeg == *b.CC {
+			b.CC = intp((*b.CC + 1) % 120)
+		}
+		m.AnalogSubs = append(m.AnalogSubs, AnalogSub{Sub: "Touchpad", Default: floatp(genDeadzone(t, "dz2"))})
+		m.Axes = append(m.Axes, b)
+		k := rapid.IntRange(1, 12).Draw(t, "secondEvents")
+		for i := 0; i < k; i++ {
+			pos := rapid.IntRange(0, len(steps)).Draw(t, "insertAt")
+			var r int32
+			if rapid.Bool().Draw(t, "secondInteresting") {
+				r = inter[rapid.IntRange(0, len(inter)-1).Draw(t, "secondIdx")]
+			} else {
+				r = int32(rapid.Int64Range(int64(a.Min), int64(a.Max)).Draw(t, "secondRaw"))
+			}
+			steps = append(steps[:pos], append([]Step{{T: "abs", Sub: "Touchpad", Code: a.Code, Val: r}}, steps[pos:]...)...)
+		}
+	}
 	return AxisCase{D: d, Steps: steps}
+}
+
+func derefOr(p *int, def int) int {
+	if p == nil {
+		return def
+	}
+	return *p
 }
 
 func genC07(t *rapid.T) AxisCase {
@@ -307,6 +334,23 @@ func genC08(t *rapid.T) AxisCase {
 		}
 		m.Axes = append(m.Axes, a)
 	}
+	if rapid.IntRange(0, 9).Draw(t, "secondSub") < 3 {
+		m.AnalogSubs = append(m.AnalogSubs, AnalogSub{Sub: "Touchpad", Default: floatp(0)})
+		for i := 0; i < nAxes; i++ {
+			b := m.Axes[i]
+			b.Sub = "Touchpad"
+			b.Deadzone = nil
+			b.Note = intp((*b.Note + 17) % 128)
+			if b.NoteNeg != nil {
+				b.NoteNeg = intp((*b.NoteNeg + 29) % 128)
+				if *b.NoteNeg == *b.Note {
+					b.NoteNeg = intp((*b.NoteNeg + 1) % 128)
+				}
+			}
+			m.Axes = append(m.Axes, b)
+		}
+	}
+	nAll := len(m.Axes)
 	n := rapid.IntRange(1, 40).Draw(t, "len")
 	var steps []Step
 	for len(steps) < n {
@@ -318,7 +362,7 @@ func genC08(t *rapid.T) AxisCase {
 			}
 			continue
 		}
-		a := &m.Axes[rapid.IntRange(0, nAxes-1).Draw(t, "axis")]
+		a := &m.Axes[rapid.IntRange(0, nAll-1).Draw(t, "axis")]
 		lo, hi := float64(a.Min), float64(a.Max)
 		var f float64 // position as a fraction of the range
 		switch rapid.IntRange(0, 5).Draw(t, "poskind") {
@@ -335,7 +379,7 @@ func genC08(t *rapid.T) AxisCase {
 			f = float64(rapid.IntRange(0, 1000).Draw(t, "frac")) / 1000
 		}
 		r := math.Round(lo + (hi-lo)*f)
-		steps = append(steps, Step{T: "abs", Sub: "", Code: a.Code, Val: int32(r)})
+		steps = append(steps, Step{T: "abs", Sub: a.Sub, Code: a.Code, Val: int32(r)})
 	}
 	return AxisCase{D: d, Steps: steps}
 }
